@@ -1,6 +1,8 @@
 package skel
 
 import (
+	"go/importer"
+	"strings"
 	"os"
 	"testing"
 )
@@ -16,4 +18,49 @@ func TestExtractShipped(t *testing.T) {
 	}
 	t.Logf("pkg=%s type=%s embedded=%s ctor=%s blocks=%d methods=%d iface=%d ctorcalls=%d helpers=%d", e.Package, e.TypeName, e.Embedded, e.CtorName, len(e.Blocks), len(e.Methods), len(e.Iface), len(e.CtorCalls), len(e.Helpers))
 	t.Logf("block0=%+v", e.Blocks[0])
+}
+
+func TestTypeErrorsFixtures(t *testing.T) {
+	src := `package main
+
+import (
+	"go/importer"
+	"strings"
+	i0_ctx "context"
+	i1_pkg "example.com/user/pkg"
+	i2_unused "example.com/unused"
+)
+
+type G struct{}
+
+func (c *G) Get() (result *i1_pkg.X, err error) { return }
+func (c *G) Must() *i1_pkg.X {
+	r, err := c.Get()
+	if err != nil {
+		panic(err.Error())
+	}
+	return r
+}
+func (c *G) InCtx(ctx i0_ctx.Context) Local { var l Local; _ = i1_pkg.NewX; _ = NewLocal; return l }
+`
+	allow := func(n string) bool { return n == "Local" || n == "NewLocal" }
+	if errs := TypeErrors(src, importer.Default(), allow); len(errs) != 0 {
+		t.Fatalf("valid file reported: %v", errs)
+	}
+	bad := strings.Replace(src, "return r\n", "return &r\n", 1)
+	errs := TypeErrors(bad, importer.Default(), allow)
+	if len(errs) != 1 || !strings.Contains(errs[0], "cannot use &r") {
+		t.Fatalf("want one type error about &r, got %v", errs)
+	}
+	// an undefined identifier the configuration does not name is reported
+	errs = TypeErrors(src, importer.Default(), func(string) bool { return false })
+	if len(errs) == 0 {
+		t.Fatalf("undefined Local / NewLocal not reported")
+	}
+	// a method declared twice
+	dup := src + "\nfunc (c *G) Get() {}\n"
+	errs = TypeErrors(dup, importer.Default(), allow)
+	if len(errs) == 0 || !strings.Contains(strings.Join(errs, ";"), "already declared") {
+		t.Fatalf("duplicate method not reported: %v", errs)
+	}
 }
